@@ -64,8 +64,21 @@ def leaves_of(entry, path, out):
     return out
 
 
-def check_tree(text, root, label):
-    """Yield violations for one tree (root: Entry)."""
+def spans_of(root):
+    out = {}
+
+    def rec(e, path):
+        sm = e.source_map
+        out[path] = (tuple(sm['begin']), tuple(sm['end']))
+        for i, c in enumerate(e.children):
+            rec(c, f'{path}.{c.name}[{i}]')
+    rec(root, root.name)
+    return out
+
+
+def check_tree(text, root, label, fresh_spans=None):
+    """Yield violations for one tree (root: Entry). fresh_spans: spans of the freshly parsed tree of the same text
+    (already judged): a restored entry must report the same span."""
     ls = line_starts(text)
     n_lines = len(ls)
     all_leaves = leaves_of(root, root.name, [])
@@ -91,6 +104,8 @@ def check_tree(text, root, label):
         if (b, en) == ((0, 0), (0, 0)):
             if sub:
                 add([label, 'no-span-but-has-tokens', tag], f'{text!r} {path}: reports (0,0)-(0,0) but contains tokens {[s[2] for s in sub][:4]}')
+            elif not e.is_empty and not e.is_terminal and fresh_spans is not None and fresh_spans.get(path, (b, en)) != (b, en):
+                add([label, 'span-lost', tag], f'{text!r} {path}: reports (0,0)-(0,0); the freshly parsed tree has {fresh_spans[path]} for it')
             span = parent_span
         else:
             ob, oe = off(b), off(en)
@@ -98,6 +113,10 @@ def check_tree(text, root, label):
                 add([label, 'span-out-of-range', tag], f'{text!r} {path}: span {b}-{en} outside the source')
                 return
             sl = text[ob:oe]
+            if fresh_spans is not None and fresh_spans.get(path, (b, en)) != (b, en):
+                add([label, 'span-differs-from-fresh', tag], f'{text!r} {path}: span {b}-{en}, freshly parsed {fresh_spans[path]}')
+            if not e.is_terminal and not sub and not sl.strip():
+                add([label, 'childless-rule-without-text', tag], f'{text!r} {path}: span {b}-{en} addresses only blanks {sl!r}')
             if e.is_terminal:
                 if sl != e.value:
                     add([label, 'token-span-text', e.name], f'{text!r} {path}: token {e.value!r} span addresses {sl!r}')
@@ -136,7 +155,7 @@ def tree_check(text):
         return None, 0
     viol = check_tree(src, EntryOfLark(tree), 'fresh')
     restored = Serialization.loads(json.loads(json.dumps(Serialization.dumps(tree))))
-    viol += check_tree(src, EntryOfLark(restored), 'restored')
+    viol += check_tree(src, EntryOfLark(restored), 'restored', spans_of(EntryOfLark(tree)))
     return viol, 1
 
 
@@ -158,10 +177,11 @@ def render_check(task):
     mod = f'{pkg}.m{idx}'
     fp = os.path.join(wd, pkg, f'm{idx}.py')
     src = text if text.endswith('\n') else text + '\n'
-    with open(fp, 'w') as f:
+    with open(fp, 'w', newline='') as f:
         f.write(src)
     viol, n = [], 0
     seen = set()
+    disk_spans = None
     try:
         for variant in ('fresh', 'restored'):   # second session restores the tree from the cache written by the first
             s = Session({}, cache=True)
@@ -169,6 +189,13 @@ def render_check(task):
             nodes = ep._Node__nodes
             root = nodes._Nodes__entries.by('file_input')
             lines = src.split('\n')
+            # the tree the application built from the file (default source provider, cache): same span rules
+            for sig, what, rep in check_tree(src, root, f'{variant}-on-disk', disk_spans if variant == 'restored' else None):
+                if tuple(sig) not in seen:
+                    seen.add(tuple(sig))
+                    viol.append((sig, what, {'src': text}))
+            if variant == 'fresh':
+                disk_spans = spans_of(root)
             for path in ASTFinder().full_pathfy(root).keys():
                 node = nodes.by(path)
                 sm = node.source_map
@@ -234,6 +261,9 @@ def run(ctx):
     # quotation check on disk: block programs, statement sentences with newlines, real modules (quick: a slice)
     multi = [t for t in sents if '\n' in t]
     rtexts = corpus.block_programs() + multi[::(9 if ctx.quick else 2)] + [src for _, _, src in (reals[:6] if ctx.quick else reals)]
+    # files that begin with blank or blank-only lines, or end without a newline / with several
+    base = corpus.block_programs() + multi[::(40 if ctx.quick else 10)]
+    rtexts += ['\n\n' + t for t in base] + ['  \n\t\n' + t for t in base[:6]] + ['# c\n\n' + t for t in base[:6]] + [t.rstrip('\n') + '\n\n\n' for t in base[:6]]
     res2 = pool.pmap(render_check, list(enumerate(rtexts)), workers=ctx.workers, rotate=ctx.seed)
     quoted = 0
     for viol, cnt in res2:
@@ -242,7 +272,7 @@ def run(ctx):
     return {
         'evaluations': n * 2 + len(rtexts),
         'distinct_nontrivial': n,
-        'rule': 'every tree of the enumerated sentence corpus, the block programs (tab, 4-space and 2-space indented) and every real module; each checked fresh and restored from the stored form; every entry: token-aligned span, leaves inside span == leaves of subtree, child inside parent, no blank edges; ErrorRender quotation of every node of on-disk modules (fresh and cache-restored); non-trivial = accepted by the grammar',
+        'rule': 'every tree of the enumerated sentence corpus, the block programs (tab, 4-space and 2-space indented) and every real module; each checked fresh and restored from the stored form; every entry: token-aligned span, leaves inside span == leaves of subtree, child inside parent, no blank edges; a restored entry reports the span of the freshly parsed one; childless rule entries address text; on-disk modules (loaded by the application with its default source provider, fresh and cache-restored; also files beginning with blank lines, blank-only lines or a comment, and ending with several newlines): the same span rules on the loaded tree and the ErrorRender quotation of every node; non-trivial = accepted by the grammar',
         'samples': texts[:2] + [corpus.block_programs()[1][:80]] + [m for m, _, _ in reals[:2]],
         'quotations_checked': quoted,
         'rejected_by_grammar': rejected,
